@@ -2,7 +2,7 @@
     that makes interference impossible (no cross-container dependence in fillContainers whatever the
     map iteration order; a read-only shared store); the schedules the Go scheduler actually produces
     and the memory model are observed on the running code under the race detector, not proved. *)
-From MowCli Require Import Base Matchers Values Cmd ValueProofs Generated Tie.
+From MowCli Require Import Base Nfa Matchers Apply Values Cmd ValueProofs OrderProofs Generated Tie.
 
 Section C20.
   Variable parse_float : str -> option str.
@@ -33,6 +33,29 @@ Section C20.
         * destruct IH as (k & c0 & Hk & Hf). exists (S k), c0. split; [assumption|].
           now replace (i + S k) with (S i + k) by lia.
       + exists 0, c. rewrite Nat.add_0_r. auto.
+  Qed.
+
+  (** (i') the same as an execution: fsm.Parse with its two passes over the bound containers made in ANY order — the
+      random order of a Go map (before the repair D11), the order of the names (since), any other — returns what the
+      model's pass in declaration order returns. The orders may depend on what was bound; they must visit no
+      container twice and every container that was bound something. (For containers that share a destination
+      variable the order IS observable: that was D11; the model has no such containers and the check compares
+      rebuilt runs of the real library for them.) *)
+  Theorem C20_any_visiting_order :
+    forall (oo oa : list binding -> list nat) i argv,
+      covers (i_opts i) KO oo -> covers (i_args i) KA oa ->
+      fsm_parse_visiting parse_float oo oa i argv = fsm_parse parse_float i argv.
+  Proof. exact (fsm_parse_any_order parse_float). Qed.
+
+  (** the hypotheses are satisfiable: the declaration order and its reverse both cover *)
+  Example C20_orders_exist : forall cs mk,
+    covers cs mk (fun _ => List.seq 0 (length cs)) /\ covers cs mk (fun _ => rev (List.seq 0 (length cs))).
+  Proof.
+    intros cs mk. split; intros bs; split.
+    - apply seq_NoDup.
+    - intros k Hk _. apply in_seq. lia.
+    - apply NoDup_rev, seq_NoDup.
+    - intros k Hk _. apply in_rev. rewrite rev_involutive. apply in_seq. lia.
   Qed.
 End C20.
 
@@ -94,5 +117,6 @@ Theorem C20_shared_store_is_read_only :
 Proof. exact tie_package_state. Qed.
 
 Print Assumptions C20_map_order.
+Print Assumptions C20_any_visiting_order.
 Print Assumptions C20_noninterference.
 Print Assumptions C20_shared_store_is_read_only.
